@@ -58,6 +58,7 @@ def run(prog, tier):
     check_label_order(R, prog)
     check_writers(R, prog)
     check_return_defined(R, prog)
+    check_nodes_first(R, prog)
     merge_filtered(R0, R, lambda f: rt[1] if (rt[0] is True and f.module == "cnfgen.graphs" and (f.function or "").split(".")[0] in _gio.FUNCTIONS) else None)
     R = R0
     from ._families import borrow as _borrow
@@ -414,3 +415,35 @@ def check_return_defined(R, prog):
             else:
                 R.bad(F("RETURN-DEFINED", fi, "%s can return None" % q, why, ret))
     R.floor("RETURN-DEFINED", n, 1)
+
+
+def check_nodes_first(R, prog):
+    """NODES-FIRST: every to_networkx creates the nodes 1..n (for bipartite graphs: the left side, then the right side) before any edge.
+    networkx numbers nodes in order of first appearance and the readers / from_networkx number vertices in that order: an edge added
+    first moves its end points to the front and the graph that is read back is numbered differently."""
+    n = 0
+    for cname, ci in sorted(prog.module("cnfgen.graphs").classes.items()):
+        fi = ci.methods.get("to_networkx")
+        if fi is None:
+            continue
+        calls = [c for c in ast.walk(fi.node) if isinstance(c, ast.Call) and isinstance(c.func, ast.Attribute) and
+                 (c.func.attr in ("add_nodes_from", "add_node", "add_edges_from", "add_edge", "add_weighted_edges_from", "update") or
+                  (c.func.attr in ("Graph", "DiGraph", "MultiGraph", "MultiDiGraph", "from_edgelist", "from_dict_of_lists") and (c.args or c.keywords)))]
+        if not calls:
+            continue          # (abstract base: raises NotImplementedError)
+        n += 1
+        calls.sort(key=lambda c: (c.lineno, c.col_offset))
+        # (a networkx graph constructed from data starts with the nodes in the order that data mentions them)
+        kinds = ["node" if c.func.attr.startswith("add_node") else "edge" for c in calls]
+        first_edge = kinds.index("edge") if "edge" in kinds else len(kinds)
+        in_loop = any(isinstance(p_, (ast.For, ast.While)) and any(x is calls[0] for x in ast.walk(p_)) and
+                      any(c is not calls[0] and any(x is c for x in ast.walk(p_)) for c in calls) for p_ in ast.walk(fi.node))
+        if "node" in kinds and "node" not in kinds[first_edge:] and not in_loop:
+            R.ok("NODES-FIRST", "%s.to_networkx creates all nodes before the first edge" % cname, fi.key)
+        else:
+            R.bad(F("NODES-FIRST", fi, "%s.to_networkx adds an edge before all nodes exist" % cname,
+                    "`%s` comes before `%s`: networkx keeps nodes in order of first appearance, so the vertices of the written graph are "
+                    "renumbered by the order in which the edges mention them" % (src(calls[first_edge])[:50] if first_edge < len(calls) else "?",
+                                                                               src([c for c, k in zip(calls, kinds) if k == "node"][-1])[:50] if "node" in kinds else "add_nodes_from"),
+                    calls[first_edge] if first_edge < len(calls) else None))
+    R.floor("NODES-FIRST", n, 3)
